@@ -1,155 +1,226 @@
+/-
+M4 — model of the FIXED `(*Parser).ParseTokens` (/repo/html/parser.go).
+
+The Go code walks the token slice once with a pointer `node` into the tree under construction:
+push on a start tag, pop on an end tag, append a leaf for text / comment / CDATA / void element /
+self-closing tag.  Since the fix, an end tag met while `node` is the root (`node.Parent == nil`) is
+appended as a leaf child of the root instead of popping to a nil parent, so `node` is never nil.
+
+The pointer is modelled by a zipper: `stack` = the open ancestors of `node` (innermost first, each
+with the children that precede it in its parent, reversed), `cur` = the children of `node`, reversed.
+`node.Parent == nil`  ⇔  `stack = []`.
+
+The token classifier is abstract (`Cfg`): every theorem in Proofs/TreeProofs.lean holds for every
+choice of the predicates, in particular for every configured void-element list.
+
+Core-only, total, structurally recursive on the token list, executable.
+-/
 namespace TB
 
-/-- what ParseTokens looks at in a token -/
-inductive TokClass
-  | leaf        -- text / comment / cdata, void element, self-closing tag
-  | open_       -- start tag
-  | close       -- </name>
-  | bad         -- TokenKindError or tag == nil
+/-- `token.Kind`.  `error` stands for `TokenKindError` and for every other integer value: the
+    `default:` branch of the outer switch. -/
+inductive Kind
+  | tag | text | comment | cdata | error
 deriving DecidableEq, Repr
 
+/-- Everything ParseTokens reads from a `*Token`, as abstract predicates. -/
 structure Cfg (Tok : Type) where
-  classify : Tok → TokClass      -- depends on the configured void-element list
+  /-- the `*Token` pointer itself is nil (`token.Kind` then dereferences nil; the scanner never emits one) -/
+  nilPtr : Tok → Bool
+  kind : Tok → Kind
+  /-- `token.Tag == nil` (only looked at when `kind = tag`) -/
+  tagNil : Tok → Bool
+  /-- `p.isVoidElement(tag.Name)` — depends on the configured void-element list -/
+  isVoid : Tok → Bool
+  /-- `tag.IsClose()`: `</name>` or self-closing -/
+  isClose : Tok → Bool
+  /-- `tag.IsSelfClose()`: `<name/>`, `<name />`, `<name k=v/>` -/
+  isSelfClose : Tok → Bool
 
+/-- which branch of ParseTokens a token takes -/
+inductive TokClass
+  | leaf        -- text / comment / cdata, void element, self-closing tag: append a leaf
+  | open_       -- start tag: append a child and descend into it
+  | close       -- `</name>`: set End and pop — or, at the root, append a leaf
+  | bad         -- `tag == nil` or the `default:` branch: `return nil, err`
+  | nilPtr      -- nil `*Token`: nil dereference
+deriving DecidableEq, Repr
+
+/-- the `switch { case tag.IsClose() || isVoid: if tag.IsSelfClose() || isVoid … }` of a tag token -/
+def Cfg.classifyTag {Tok} (cfg : Cfg Tok) (t : Tok) : TokClass :=
+  if cfg.tagNil t then .bad
+  else if cfg.isClose t || cfg.isVoid t then
+    if cfg.isSelfClose t || cfg.isVoid t then .leaf else .close
+  else .open_
+
+def Cfg.classify {Tok} (cfg : Cfg Tok) (t : Tok) : TokClass :=
+  if cfg.nilPtr t then .nilPtr
+  else match cfg.kind t with
+    | .tag => cfg.classifyTag t
+    | .text => .leaf
+    | .comment => .leaf
+    | .cdata => .leaf
+    | .error => .bad
+
+/-- Go `Node` without the `Parent` back pointer: `Token`, `Children`, `End`.
+    A leaf is a node with no children and no End (Go does not distinguish a leaf from an element
+    that was opened, got no children and was never closed, and neither does the model). -/
 inductive Node (Tok : Type)
-  | leaf (t : Tok)
-  | elem (t : Tok) (kids : List (Node Tok)) (endTok : Option Tok)
+  | mk (tok : Tok) (kids : List (Node Tok)) (endTok : Option Tok)
+deriving Repr
 
+def Node.leaf {Tok} (t : Tok) : Node Tok := .mk t [] none
+
+/-- The root `doc := &Node{}`: `Token = nil`, and in the fixed code `End` is never assigned, so the
+    children are all there is. -/
 structure Doc (Tok : Type) where
   kids : List (Node Tok)
-  endTok : Option Tok
+deriving Repr
 
 structure Frame (Tok : Type) where
   tok : Tok
   before : List (Node Tok)       -- reversed: earlier children of the parent
 
-/-- zipper for the Go code's `node` pointer: `stack` = open ancestors (innermost first),
-    `cur` = reversed children of the node `node` points to, `dead` = `node == nil` after popping the root -/
 structure Z (Tok : Type) where
   stack : List (Frame Tok)
-  cur : List (Node Tok)
-  rootEnd : Option Tok
-  dead : Bool
+  cur : List (Node Tok)          -- reversed
 
-inductive Res (α : Type) | ok (a : α) | err | panic
+inductive Res (α : Type)
+  | ok (a : α)
+  | err        -- `return nil, errors.Errorf(…)`
+  | panic      -- nil dereference
 deriving Repr
 
+/-- one iteration of the `for _, token := range tokens` loop -/
 def stepTok {Tok} (cfg : Cfg Tok) (z : Z Tok) (t : Tok) : Res (Z Tok) :=
   match cfg.classify t with
+  | .nilPtr => .panic
   | .bad => .err
-  | .leaf => if z.dead then .panic else .ok { z with cur := .leaf t :: z.cur }
-  | .open_ => if z.dead then .panic else .ok { z with stack := ⟨t, z.cur⟩ :: z.stack, cur := [] }
+  | .leaf => .ok ⟨z.stack, .leaf t :: z.cur⟩
+  | .open_ => .ok ⟨⟨t, z.cur⟩ :: z.stack, []⟩
   | .close =>
-    if z.dead then .panic
-    else match z.stack with
-      | fr :: rest => .ok { z with stack := rest, cur := .elem fr.tok z.cur.reverse (some t) :: fr.before }
-      | [] => .ok { z with rootEnd := some t, dead := true }     -- node = node.Parent = nil
+    match z.stack with
+    | [] => .ok ⟨[], .leaf t :: z.cur⟩                                    -- node.Parent == nil: keep as a leaf
+    | fr :: rest => .ok ⟨rest, .mk fr.tok z.cur.reverse (some t) :: fr.before⟩   -- node.End = token; node = node.Parent
 
+/-- the loop -/
+def run {Tok} (cfg : Cfg Tok) (z : Z Tok) : List Tok → Res (Z Tok)
+  | [] => .ok z
+  | t :: ts =>
+    match stepTok cfg z t with
+    | .ok z' => run cfg z' ts
+    | .err => .err
+    | .panic => .panic
+
+/-- read the tree off the zipper: elements still open at the end of input keep `End = nil` -/
 def closeAll {Tok} : List (Frame Tok) → List (Node Tok) → List (Node Tok)
   | [], cur => cur
-  | fr :: rest, cur => closeAll rest (.elem fr.tok cur.reverse none :: fr.before)
+  | fr :: rest, cur => closeAll rest (.mk fr.tok cur.reverse none :: fr.before)
+
+def Z.init {Tok} : Z Tok := ⟨[], []⟩
+
+def Z.doc {Tok} (z : Z Tok) : Doc Tok := ⟨(closeAll z.stack z.cur).reverse⟩
 
 def build {Tok} (cfg : Cfg Tok) (toks : List Tok) : Res (Doc Tok) :=
-  let rec go (z : Z Tok) : List Tok → Res (Z Tok)
-    | [] => .ok z
-    | t :: ts => match stepTok cfg z t with
-      | .ok z' => go z' ts
-      | .err => .err
-      | .panic => .panic
-  match go ⟨[], [], none, false⟩ toks with
-  | .ok z => .ok ⟨(closeAll z.stack z.cur).reverse, z.rootEnd⟩
+  match run cfg .init toks with
+  | .ok z => .ok z.doc
   | .err => .err
   | .panic => .panic
 
+/-! pre-order walk: node token, children, then the End token if there is one -/
 mutual
 def flat {Tok} : Node Tok → List Tok
-  | .leaf t => [t]
-  | .elem t kids e => t :: (flatL kids ++ e.toList)
+  | .mk t kids e => t :: (flatL kids ++ e.toList)
 def flatL {Tok} : List (Node Tok) → List Tok
   | [] => []
   | n :: ns => flat n ++ flatL ns
 end
 
-def Doc.flat {Tok} (d : Doc Tok) : List Tok := flatL d.kids ++ d.endTok.toList
+def Doc.flat {Tok} (d : Doc Tok) : List Tok := flatL d.kids
+
+/-- nesting depth of `node` after a token (saturating at the root, like the fixed code) -/
+def depthStep {Tok} (cfg : Cfg Tok) (d : Nat) (t : Tok) : Nat :=
+  match cfg.classify t with
+  | .open_ => d + 1
+  | .close => d - 1
+  | _ => d
+
+/-- nesting depth of `node` after a token list, starting at the root -/
+def depth {Tok} (cfg : Cfg Tok) (toks : List Tok) : Nat := toks.foldl (depthStep cfg) 0
+
+/-- the tokens on which the real code neither errors nor panics -/
+def Cfg.Good {Tok} (cfg : Cfg Tok) (t : Tok) : Prop :=
+  cfg.nilPtr t = false ∧ cfg.kind t ≠ .error ∧ (cfg.kind t = .tag → cfg.tagNil t = false)
+
+/-- the tokens on which the real code returns an error: kind Error (or unknown), or a tag token with `Tag == nil` -/
+def Cfg.ErrTok {Tok} (cfg : Cfg Tok) (t : Tok) : Prop :=
+  cfg.nilPtr t = false ∧ (cfg.kind t = .error ∨ (cfg.kind t = .tag ∧ cfg.tagNil t = true))
+
+instance {Tok} (cfg : Cfg Tok) (t : Tok) : Decidable (cfg.Good t) := by unfold Cfg.Good; infer_instance
+instance {Tok} (cfg : Cfg Tok) (t : Tok) : Decidable (cfg.ErrTok t) := by unfold Cfg.ErrTok; infer_instance
+
+/-! ## concrete classifier for examples and for the driver's self-test -/
+
+/-- a toy token: enough structure to exercise every branch -/
+inductive DTok
+  | op (name : String)        -- `<name>`
+  | cl (name : String)        -- `</name>`
+  | sc (name : String)        -- `<name/>`
+  | txt (s : String)
+  | cmt (s : String)
+  | cdata (s : String)
+  | errTok                    -- kind Error
+  | nilTag                    -- kind Tag, Tag == nil
+deriving DecidableEq, Repr
+
+def demoCfg (voids : List String) : Cfg DTok where
+  nilPtr _ := false
+  kind
+    | .op _ | .cl _ | .sc _ | .nilTag => .tag
+    | .txt _ => .text
+    | .cmt _ => .comment
+    | .cdata _ => .cdata
+    | .errTok => .error
+  tagNil | .nilTag => true | _ => false
+  isVoid | .op n | .cl n | .sc n => voids.contains n | _ => false
+  isClose | .cl _ | .sc _ => true | _ => false
+  isSelfClose | .sc _ => true | _ => false
+
+def demo : Cfg DTok := demoCfg ["br", "meta"]
+
+/-- flat of the built tree, or `none` on err/panic -/
+def buildFlat {Tok} (cfg : Cfg Tok) (toks : List Tok) : Option (List Tok) :=
+  match build cfg toks with
+  | .ok d => some d.flat
+  | _ => none
+
+open DTok in
+/-- `</p>x` — the input that crashed the unfixed code: the stray close tag is a leaf of the root -/
+example : build demo [cl "p", txt "x"] = .ok ⟨[.leaf (cl "p"), .leaf (txt "x")]⟩ := rfl
+open DTok in
+example : buildFlat demo [cl "p", txt "x"] = some [cl "p", txt "x"] := by decide
+
+open DTok in
+/-- `<a><b></a>` — `</a>` closes `<b>` (no name matching in ParseTokens), `<a>` stays open -/
+example : build demo [op "a", op "b", cl "a"] =
+    .ok ⟨[.mk (op "a") [.mk (op "b") [] (some (cl "a"))] none]⟩ := rfl
+open DTok in
+example : buildFlat demo [op "a", op "b", cl "a"] = some [op "a", op "b", cl "a"] := by decide
+
+open DTok in
+/-- void and self-closing tags are leaves; a closing tag of a void element (`</br>`) is a leaf too -/
+example : build demo [op "p", op "br", sc "img", txt "t", cl "br", cl "p", cl "p", cmt "c"] =
+    .ok ⟨[.mk (op "p") [.leaf (op "br"), .leaf (sc "img"), .leaf (txt "t"), .leaf (cl "br")] (some (cl "p")),
+          .leaf (cl "p"), .leaf (cmt "c")]⟩ := rfl
+open DTok in
+example : buildFlat demo [op "p", op "br", sc "img", txt "t", cl "br", cl "p", cl "p", cmt "c"] =
+    some [op "p", op "br", sc "img", txt "t", cl "br", cl "p", cl "p", cmt "c"] := by decide
+
+open DTok in
+/-- the two error tokens -/
+example : buildFlat demo [op "a", errTok, txt "x"] = none := by decide
+open DTok in
+example : buildFlat demo [op "a", nilTag] = none := by decide
 
 end TB
 
-namespace TB
-variable {Tok : Type}
-
-@[simp] theorem flatL_append (a b : List (Node Tok)) : flatL (a ++ b) = flatL a ++ flatL b := by
-  induction a with
-  | nil => simp [flatL]
-  | cons n ns ih => simp [flatL, ih]
-
-@[simp] theorem flatL_nil : flatL ([] : List (Node Tok)) = [] := by simp [flatL]
-
-@[simp] theorem flatL_single (n : Node Tok) : flatL [n] = flat n := by simp [flatL]
-
-def flatStack : List (Frame Tok) → List Tok
-  | [] => []
-  | fr :: rest => flatStack rest ++ flatL fr.before.reverse ++ [fr.tok]
-
-def flatZ (z : Z Tok) : List Tok := flatStack z.stack ++ flatL z.cur.reverse ++ z.rootEnd.toList
-
-def ZInv (z : Z Tok) : Prop := if z.dead then z.stack = [] else z.rootEnd = none
-
-theorem step_flat (cfg : Cfg Tok) (z z' : Z Tok) (t : Tok) (hi : ZInv z) (h : stepTok cfg z t = .ok z') :
-    flatZ z' = flatZ z ++ [t] ∧ ZInv z' := by
-  unfold stepTok at h
-  cases hc : cfg.classify t <;> simp only [hc] at h
-  case bad => cases h
-  all_goals (
-    cases hd : z.dead <;> simp only [hd] at h <;> try (cases h))
-  case leaf => simp_all [flatZ, ZInv, flat]
-  case open_ => simp_all [flatZ, ZInv, flatStack]
-  case close =>
-    cases hs : z.stack with
-    | nil =>
-      simp only [hs] at h; cases h
-      simp_all [flatZ, ZInv, flatStack]
-    | cons fr rest =>
-      simp only [hs] at h; cases h
-      simp_all [flatZ, ZInv, flatStack, flat]
-
-theorem go_flat (cfg : Cfg Tok) (toks : List Tok) (z z' : Z Tok) (hi : ZInv z) (h : build.go cfg z toks = .ok z') :
-    flatZ z' = flatZ z ++ toks ∧ ZInv z' := by
-  induction toks generalizing z with
-  | nil => simp only [build.go] at h; cases h; simp [hi]
-  | cons t ts ih =>
-    simp only [build.go] at h
-    cases hs : stepTok cfg z t with
-    | ok z1 =>
-      simp only [hs] at h
-      obtain ⟨h1, hi1⟩ := step_flat cfg z z1 t hi hs
-      obtain ⟨h2, hi2⟩ := ih z1 hi1 h
-      exact ⟨by simp [h2, h1], hi2⟩
-    | err => simp [hs] at h
-    | panic => simp [hs] at h
-
-theorem closeAll_flat (stack : List (Frame Tok)) (cur : List (Node Tok)) :
-    flatL (closeAll stack cur).reverse = flatStack stack ++ flatL cur.reverse := by
-  induction stack generalizing cur with
-  | nil => simp [closeAll, flatStack]
-  | cons fr rest ih => simp [closeAll, flatStack, ih, flat]
-
-/-- C01, second clause: tree building drops and reorders nothing — the pre-order walk of the tree
-    (start token, children, End token) is the token list, for every token list and every void list. -/
-theorem tree_preorder (cfg : Cfg Tok) (toks : List Tok) (d : Doc Tok) (h : build cfg toks = .ok d) :
-    d.flat = toks := by
-  unfold build at h
-  cases hg : build.go cfg ⟨[], [], none, false⟩ toks with
-  | ok z =>
-    simp only [hg] at h; cases h
-    obtain ⟨hf, _⟩ := go_flat cfg toks _ z (by simp [ZInv]) hg
-    simp only [Doc.flat, closeAll_flat]
-    simpa [flatZ, flatStack] using hf
-  | err => simp [hg] at h
-  | panic => simp [hg] at h
-
-/-- C08 on the pinned tree: any token after a close tag that has no opener panics (nil dereference). -/
-example (cfg : Cfg Nat) (h0 : cfg.classify 0 = .close) (h1 : cfg.classify 1 = .leaf) :
-    build cfg [0, 1] = .panic := by
-  simp [build, build.go, stepTok, h0, h1]
-
-end TB
